@@ -11,7 +11,7 @@ from checks import treegen
 from checks.C04 import tname
 
 
-def sugar_table(p1, p2, inp=(True, True, True, True)):
+def sugar_table(p1, p2, inp=(True, True, True, True), vs_on=True):
     """abstract description of the application wsugar::W of harness/tree_driver.cpp (built with the REAL rParamI / rToggle / rRecur / rRecurp /
     rRecurs / rEnabledBy macros); ids as the driver assigns them; the pointer sub-trees are null or not according to the state"""
     L = treegen.lit
@@ -36,7 +36,11 @@ def sugar_table(p1, p2, inp=(True, True, True, True)):
         sub(3, [L("m/")], 30, enabledby=2), leaf(4, "m", [""]),
         sub(5, [L("p1/")], 50, ptr="member" if p1 else "null"), sub(6, [L("p2/")], 60, ptr="member" if p2 else "null"),
         arr_elem(0, inp[0:2]), arr_elem(1, inp[2:4]),
-        sub(8, [L("first/")], 90), leaf(9, "first", [""])])      # a member sub-tree at offset 0 of the application object
+        sub(8, [L("first/")], 90), leaf(9, "first", [""]),      # a member sub-tree at offset 0 of the application object
+        # a sub-tree whose own table carries rSelf(..., rEnabledBy(on)): switched off, the walk reports its enabling port only
+        dict(id=10, name=[ord(c) for c in "vs/"], pat=dict(segs=[L("vs/")], types=dict(has=False, alts=[])), leaf=False, meta=[], ptr="member", enabledby=0,
+             sub=dict(dflt=False, selfen=102, ports=[leaf(101, "self", [""]), leaf(102, "on", ["", "T", "F"], treegen.meta_bytes([("toggle", None)])), leaf(103, "q", ["", "i"])])),
+        leaf(11, "vs", [""])])
 
 
 def run_walk(ctx, inputs, tag, mode="walk"):
@@ -44,7 +48,7 @@ def run_walk(ctx, inputs, tag, mode="walk"):
     with open(inp, "w") as f:
         for x in inputs:
             d = dict(table=x["table"], rt=x.get("rt", False), multi=x.get("multi", False), state={str(k): v for k, v in x.get("state", {}).items()})
-            for k in ("p1", "p2", "en", "inp"):
+            for k in ("p1", "p2", "en", "inp", "vs_on"):
                 if k in x:
                     d[k] = x[k]
             f.write(json.dumps(d, separators=(",", ":")) + "\n")
@@ -106,8 +110,8 @@ def run(ctx):
         inputs.append(dict(table=tb, rt=False, multi=multi, state={t: True for t in treegen_all_toggles(tb)}))
     n += run_walk(ctx, inputs, "random")
     # the same walk over an application built with the library's own sub-tree macros, in every state of its two pointers and its enabling toggle
-    sug = [dict(table=sugar_table(p1, p2, inp), rt=rt, p1=p1, p2=p2, en=en, inp=list(inp), state={2: en}) for p1 in (False, True) for p2 in (False, True) for en in (False, True)
-           for rt in (False, True) for inp in itertools.product([False, True], repeat=4)]
+    sug = [dict(table=sugar_table(p1, p2, inp, vs_on), rt=rt, p1=p1, p2=p2, en=en, vs_on=vs_on, inp=list(inp), state={2: en, 102: vs_on}) for p1 in (False, True) for p2 in (False, True) for en in (False, True)
+           for rt in (False, True) for inp in itertools.product([False, True], repeat=4) for vs_on in ((False, True) if inp[0] == inp[3] else (p1 != en,))]
     n += run_walk(ctx, sug, "sugar", mode="walksugar")
     ctx.notes["sugar_application_states_walked"] = len(sug)
     ctx.notes["tables_walked"] = n
